@@ -167,6 +167,7 @@ RegionNode(N, rid) == IF \E x \in RegionNodes(N) : N[x].rid = rid
 \* a text leaf is shown at t iff it is active (hence all its ancestors are) and its region exists and is active
 XmlVisible(N, iv, x, t) ==
   /\ N[x].kind = "text"
+  /\ N[x].tag # " "         \* white space alone (generated only under xml:space="default") presents nothing - its TIMING counts
   /\ Active(iv, x, t)
   /\ LET r == RegionOf(N, x)
      IN  \/ r = "" /\ RegionNodes(N) = {}
@@ -271,7 +272,8 @@ RECURSIVE NearestAttr(_, _, _, _)
 NearestAttr(N, x, field, dflt) ==
   IF x = 0 THEN dflt
   ELSE LET v == IF field = "space" THEN N[x].space ELSE N[x].lang
-       IN  IF v # "" THEN v ELSE NearestAttr(N, N[x].parent, field, dflt)
+       \* ("-" stands for an attribute that IS specified with the empty string, xml:lang="": it resets the language to none)
+       IN  IF v = "-" THEN "" ELSE IF v # "" THEN v ELSE NearestAttr(N, N[x].parent, field, dflt)
 
 -----------------------------------------------------------------------------
 (* 5. Design-level machine: Init picks a document of a bounded family, the action sweeps a time cursor over it.
